@@ -339,9 +339,11 @@ class BaseInput:
             # first row is columns
             cols = next(data)
             data = list(data)
-            return pd.DataFrame(data, columns=cols, dtype=str).fillna("")
+            df = pd.DataFrame(data, columns=cols, dtype=object)
         else:
-            return pd.DataFrame(worksheet.values, dtype=str).fillna("")
+            df = pd.DataFrame(worksheet.values, dtype=object)
+        # Each cell is turned into text on its own: an empty cell in a numeric column must not turn 3 into 3.0
+        return df.where(df.notna(), "").astype(str)
 
     def validate(self, hed_schema, extra_def_dicts=None, name=None, error_handler=None):
         """Creates a SpreadsheetValidator and returns all issues with this file.
